@@ -18,9 +18,22 @@ func (m *Machine) clockRead() *Term {
 	if prev == nil {
 		prev = m.tb.Const(64, 1)
 	}
-	// 1 <= prev <= v <= 2^61 (no overflow in differences)
-	m.assume(m.tb.Cmp(OpSLe, prev, v))
-	m.assume(m.tb.Cmp(OpSLe, v, m.tb.Const(64, 1<<61)))
+	// 1 <= prev <= v <= 2^61 (no overflow in differences). The variable is fresh, so the
+	// constraints are satisfiable whenever the pc is: extend the model instead of asking.
+	if m.model != nil {
+		pv := uint64(1)
+		if x, ok := m.evalUnderModelNoSolve(prev); ok {
+			pv = x
+		}
+		md := make(Model, len(m.model)+1)
+		for k, x := range m.model {
+			md[k] = x
+		}
+		md[v.Name] = pv
+		m.setModel(md)
+	}
+	m.addPC(m.tb.Cmp(OpSLe, prev, v))
+	m.addPC(m.tb.Cmp(OpSLe, v, m.tb.Const(64, 1<<61)))
 	m.side["clock.prev"] = v
 	return v
 }
